@@ -92,7 +92,13 @@ def gen_cases(rng, tier):
     T = tg.gen_tree(rng, depth, fanout=4 if depth < 3 else 3)
     S = tg.gen_matrix(rng, T)
     p = tg.gen_tree_price(rng, T, ['scalar', 'vector', 'matrix'][i % 3])
-    out.append({'tree': T, 'S': S, 'p': p, 'flat': bool(i % 2)})
+    c = {'tree': T, 'S': S, 'p': p, 'flat': bool(i % 2)}
+    if i % 6 == 4:
+      # whole-number flows handed over as an INTEGER array (the units are evaluated standalone on float copies): the tree must not
+      # compute in the caller's dtype
+      c['S'] = [[F(round(v)) for v in r] for r in S]
+      c['int'] = True
+    out.append(c)
   return out
 
 
@@ -126,6 +132,8 @@ def observe(c):
   d = tg.build_tree(T)
   s = np.array(fl(S)).reshape(R, n)
   arg = s.reshape(-1) if c.get('flat') else s
+  if c.get('int'):
+    arg = arg.astype(int)
   pp = tg.py_price(p)
   Pm = tg.price_matrix(p, R, n)
   x = s.reshape(-1)
@@ -178,11 +186,11 @@ def classify(c, o):
 
 
 def case_to_json(c):
-  return {'tree': tg.tree_to_json(c['tree']), 'S': tg.matrix_to_json(c['S']), 'p': tg.price_to_json(c['p']), 'flat': bool(c.get('flat'))}
+  return {'tree': tg.tree_to_json(c['tree']), 'S': tg.matrix_to_json(c['S']), 'p': tg.price_to_json(c['p']), 'flat': bool(c.get('flat')), 'int': bool(c.get('int'))}
 
 
 def case_from_json(j):
-  return {'tree': tg.tree_from_json(j['tree']), 'S': tg.matrix_from_json(j['S']), 'p': tg.price_from_json(j['p']), 'flat': j.get('flat', False)}
+  return {'tree': tg.tree_from_json(j['tree']), 'S': tg.matrix_from_json(j['S']), 'p': tg.price_from_json(j['p']), 'flat': j.get('flat', False), 'int': j.get('int', False)}
 
 
 # ---- direct oracle: the same identity, evaluated on the implementation alone (partition taken from the tree dict) -----
